@@ -320,8 +320,10 @@ func init() {
 				guarded := guardedBy(site.Block(), func(cnd ssa.Value, want bool) bool { return saysFalsy(cnd, want, 0) })
 				c.check(guarded, fmt.Sprintf("evalVShow: style write#%d", n), p.instrPos(site), "only when !IsTruthy(value)", "the style attribute is written on a path where the v-show value may be truthy")
 				if nm == "(*vuego.Vue).setStyleProperty" {
-					prop, _ := constString(site.Common().Args[2])
-					val, _ := constString(site.Common().Args[3])
+					// (the last two arguments: the helper may have lost its unused receiver)
+					as := site.Common().Args
+					prop, _ := constString(as[len(as)-2])
+					val, _ := constString(as[len(as)-1])
 					c.check(prop == "display" && val == "none", "evalVShow: display:none", p.instrPos(site), "display:none", fmt.Sprintf("v-show writes %s:%s instead of display:none", prop, val))
 				}
 			}
@@ -330,7 +332,7 @@ func init() {
 	})
 
 	register(&Rule{
-		ID: "C15.R1", Props: []string{"C15"}, Min: 4,
+		ID: "C15.R1", Props: []string{"C15", "C09"}, Min: 4,
 		Doc: "no partial or failed cache entry: the only update of the template cache is reachable solely after both the load and the parse returned a nil error, stores DOM, front-matter and mtime that come from this call's own load/parse/Stat, and what the function returns on the reload path comes from that same load (never from the old entry)",
 		Run: func(p *Prog, c *Ctx) {
 			fn := p.MustFn("(*vuego.Vue).loadCachedWithFrontMatter")
@@ -426,12 +428,16 @@ func init() {
 			}
 			// results returned after the reload come from the reload
 			for i, r := range returnsOf(fn) {
-				if !dominates(load, r) || isNilConst(r.Results[0]) && isNilConst(r.Results[1]) {
+				if !dominates(load, r) || allNilConst(r.Results[0]) && allNilConst(r.Results[1]) {
 					continue
 				}
 				okRet := true
 				for idx := 0; idx < 2; idx++ {
-					for _, o := range p.origins(r.Results[idx], OriginOpts{}) {
+					var os []ssa.Value
+					for _, rv := range throughCallee(r.Results[idx]) {
+						os = append(os, p.origins(rv, OriginOpts{})...)
+					}
+					for _, o := range os {
 						ex, ok := o.(*ssa.Extract)
 						if ok && (ex.Tuple == load || ex.Tuple == parse) {
 							continue
@@ -1181,7 +1187,7 @@ func init() {
 		Doc: "struct fields are addressed by exact name or exact JSON tag: in the struct resolver the requested name is compared by string equality with the tag's name part (or used for FieldByName), never by prefix/substring/case-folding tests, so that `user` cannot resolve to `user_id` and a non-existent name stays absent",
 		Run: func(p *Prog, c *Ctx) {
 			fn := p.MustFn("reflect.resolveStruct")
-			name := fn.Params[1]
+			name := paramOf(fn, "fieldName", 1, 2)
 			eq := 0
 			for _, site := range callsIn(fn) {
 				n := calleeName(site.Common())
